@@ -50,7 +50,7 @@ def run(R):
     R.drive("c11p", "out=" + tr3, "cases=" + cf2, timeout=3000)
     R.validate("Trace_PCut", tr3, reset_events=("PSchema",), timeout=3000)
     tr4 = os.path.join(R.scratch, "c11p-b.ndjson")
-    R.drive("c11p", "out=" + tr4, "n=%d" % (400 if q else 15000), "seed=%d" % R.seed, timeout=3000)
+    R.drive("c11p", "out=" + tr4, "n=%d" % (400 if q else 6000), "seed=%d" % R.seed, timeout=3000)
     R.validate("Trace_PCut", tr4, reset_events=("PSchema",), timeout=3000)
     R.extra_cov["tlc_proto_cases_replayed"] = len(pcases)
     return vlib.finish(R, "model_checking", RULE, ASSUME)
